@@ -144,13 +144,16 @@ def adjustMz (m : Rat) (charge : Option Int) (precision : Option Int) : Rat :=
 
 /-! ### modification masses -/
 
+/-- `sum(f(x) for x in l)` where `f` may raise -/
+def sumM {α} (f : α → Except Err Rat) (l : List α) : Except Err Rat :=
+  l.foldlM (fun acc x => do let v ← f x; pure (acc + v)) (0 : Rat)
+
 /-- `mod_mass(Mod, monoisotopic)` = `mod_mass(val) * mult` -/
 def modMass (env : Env) (mono : Bool) (m : Mod) : Except Err Rat := do
   let v ← if mono then (env.res m.val).mono else (env.res m.val).avg
   pure (v * (m.mult : Rat))
 
-def sumMods (env : Env) (mono : Bool) (l : List Mod) : Except Err Rat :=
-  l.foldlM (fun acc m => do let v ← modMass env mono m; pure (acc + v)) (0 : Rat)
+def sumMods (env : Env) (mono : Bool) (l : List Mod) : Except Err Rat := sumM (modMass env mono) l
 
 def sumOptMods (env : Env) (mono : Bool) : Option (List Mod) → Except Err Rat
   | none => pure 0
@@ -175,19 +178,19 @@ def staticMass (env : Env) (mono : Bool) (seq : List Char) (static : Option (Lis
     let map ← env.parseStatic st
     let nt ← match map.lookup nTerm with | some l => sumMods env mono l | none => pure 0
     let ct ← match map.lookup cTerm with | some l => sumMods env mono l | none => pure 0
-    let rest ← map.foldlM (fun acc (p : List Char × List Mod) =>
-      if p.1 = nTerm || p.1 = cTerm then pure acc
+    let rest ← sumM (fun (p : List Char × List Mod) =>
+      if p.1 = nTerm || p.1 = cTerm then pure 0
       else do
         let v ← sumMods env mono p.2
-        pure (acc + v * ((countSub p.1 seq : Nat) : Rat))) (0 : Rat)
+        pure (v * ((countSub p.1 seq : Nat) : Rat))) map
     pure (nt + ct + rest)
 
 /-- `sum(AA_MASSES[aa] for aa in sequence)`; KeyError → UnknownAminoAcidError -/
 def residueMass (mono : Bool) (seq : List Char) : Except Err Rat :=
-  seq.foldlM (fun acc c =>
+  sumM (fun c =>
     match aaMass mono c.toNat with
     | none => .error .unknownAA
-    | some m => pure (acc + m)) (0 : Rat)
+    | some m => pure m) seq
 
 /-- the per-position blocks of the fast path: labile (precursor only), unknown, N-term, intervals, residues, C-term -/
 def placedModsMass (env : Env) (mono : Bool) (a : Annotation) (ion : Key) : Except Err Rat := do
@@ -196,10 +199,10 @@ def placedModsMass (env : Env) (mono : Bool) (a : Annotation) (ion : Key) : Exce
   let nt ← sumOptMods env mono a.nterm
   let ivs ← match a.intervals with
     | none => pure 0
-    | some l => l.foldlM (fun acc iv => do let v ← sumOptMods env mono iv.mods; pure (acc + v)) (0 : Rat)
+    | some l => sumM (fun (iv : Interval) => sumOptMods env mono iv.mods) l
   let int ← match a.internal with
     | none => pure 0
-    | some l => l.foldlM (fun acc p => do let v ← sumMods env mono p.2; pure (acc + v)) (0 : Rat)
+    | some l => sumM (fun (p : Int × List Mod) => sumMods env mono p.2) l
   let ct ← sumOptMods env mono a.cterm
   pure (lab + unk + nt + ivs + int + ct)
 
